@@ -19,6 +19,8 @@ import hashlib
 import math
 import warnings
 
+import re as _re
+
 import numpy as np
 import xarray as xr
 import z3
@@ -166,7 +168,29 @@ def param_labels(cfg):
         add(p["parameter"])
     for p in cfg.get("extra_params", []):
         add(p)
-    return labs
+    exprs = cfg.get("expr_params", {})
+    for e in exprs.values():  # plain parameters that only occur inside expressions
+        for ref in _re.findall(r"\$([\w.]+)", e):
+            if ref not in exprs:
+                add(ref)
+    return [x for x in labs if x not in exprs]
+
+
+def with_expression_values(cfg, pv):
+    """pv extended by the value every expression parameter denotes (arithmetic expressions over $labels), from the inputs."""
+    exprs = dict(cfg.get("expr_params", {}))
+    out = dict(pv)
+    while exprs:
+        progressed = False
+        for lab, e in list(exprs.items()):
+            refs = _re.findall(r"\$([\w.]+)", e)
+            if all(r in out for r in refs):
+                out[lab] = eval(_re.sub(r"\$([\w.]+)", lambda m: f"__v[{m.group(1)!r}]", e), {"__v": out, "__builtins__": {}})  # noqa: S307
+                del exprs[lab]
+                progressed = True
+        if not progressed:
+            raise ValueError(f"cyclic expression parameters {sorted(exprs)}")
+    return out
 
 
 def _iv(v, src=None):
@@ -236,8 +260,8 @@ def build_parameters(cfg, src):
         return {k: v for k, v in o.items() if v != "sym"}
 
     plist = [[lab, 1.0 + 0.1 * i, concrete_opts(cfg.get("param_options", {}).get(lab, {}))] for i, lab in enumerate(param_labels(cfg))]
-    for lab, expr in cfg.get("expr_params", {}).items():
-        plist.append([lab, {"expr": expr}])
+    elist = [[lab, {"expr": expr}] for lab, expr in cfg.get("expr_params", {}).items()]
+    plist = elist + plist if cfg.get("expr_first") else plist + elist  # expr_first: expressions declared before what they reference
     params = Parameters.from_list(plist)
     for lab in param_labels(cfg):
         p = params.get(lab)
@@ -532,7 +556,7 @@ def spec_problems(cfg, src):
     full_labels, info (zero / related), index_value, kind ('index'|'full') and penalties is a list of
     functions clp_lookup -> term (see spec_penalties).
     """
-    pv = {lab: src.term(f"P_{lab}") for lab in param_labels(cfg)}
+    pv = with_expression_values(cfg, {lab: src.term(f"P_{lab}") for lab in param_labels(cfg)})
     problems = []
     pen_specs = []
     for gname, dss in groups_of(cfg).items():
